@@ -375,7 +375,23 @@ DIRS = ["", "", "sub", "sub/deep", "other", "sub/deep/er"]
 
 
 def content(cseed, size):
+    """file content from its seed: mostly random bytes; one seed in four gives content whose pieces repeat (all zero bytes,
+    line feeds only, a short text period), so that the piece string has long runs of equal digests and long stretches
+    without (or full of) particular byte values - layouts random content reaches with probability ~2 % (seeded change C01-8)"""
+    k = cseed % 16
+    if k == 0:
+        return bytes(size)
+    if k == 1:
+        return b"\n" * size
+    if k == 2:
+        return (b"0123456\n" * (size // 8 + 1))[:size]
+    if k == 3:
+        return (b"\xff" * size)
     return random.Random(cseed).randbytes(size)
+
+
+CONTENT_PY = ("import random;k=%d%%16;n=%d;"
+              "b=bytes(n) if k==0 else b'\\n'*n if k==1 else (b'0123456\\n'*(n//8+1))[:n] if k==2 else b'\\xff'*n if k==3 else random.Random(%d).randbytes(n)")
 
 
 def gen_e2e_case(r, n):
@@ -405,7 +421,8 @@ def gen_e2e_case(r, n):
     else:
         files = [(r.choice(NAMES), 0 if r.random() < 0.08 else around(r, p, kmax + 1), r.getrandbits(32))]
     case = {"kind": "e2e", "id": n, "shape": shape, "p": p, "md5": md5, "files": files,
-            "out": r.choice(["-", "-", "out.torrent"])}
+            "out": r.choice(["-", "-", "out.torrent"]),
+            "globals": r.choice([[], [], [], ["--terminal"], ["-t"], ["--terminal", "--color", "always"], ["--quiet"]])}
     if shape == "stdin":
         size = files[0][1]
         bursts, left = [], size
@@ -425,7 +442,9 @@ def imdl_env():
 
 
 def create_args(case, inp, name=None):
-    a = ["torrent", "create", "--input", inp, "--output", case["out"], "--piece-length", str(case["p"])] + ALLOW
+    # global options that switch the progress bar on (--terminal) must not change what is hashed (seeded change C01-9:
+    # the MD5 context fed only when no progress bar exists)
+    a = list(case.get("globals") or []) + ["torrent", "create", "--input", inp, "--output", case["out"], "--piece-length", str(case["p"])] + ALLOW
     if case["md5"]:
         a.append("--md5")
     if name is not None:
@@ -469,6 +488,47 @@ def run_create(ctx, case, cwd, inp, name=None, bursts=None, data=None):
     return rc, out, err
 
 
+def run_size_disagrees(ctx):
+    """Inputs whose size according to stat() is not the number of bytes a reader gets (kernel-generated files: /proc/version
+    says 0 and yields ~120 bytes; /sys attributes say 4096 and yield a few bytes): the listed length, the MD5 and the pieces
+    must all be those of the bytes read. Added after seeded change C01-7 (the listed length taken from the walker's stat())."""
+    cands = ["/proc/version", "/proc/filesystems", "/proc/sys/kernel/ostype", "/sys/kernel/mm/transparent_hugepage/enabled",
+             "/proc/sys/kernel/osrelease"]
+    tmp = tempfile.mkdtemp(prefix="c01s-")
+    try:
+        for path in cands:
+            try:
+                a = open(path, "rb").read(); b = open(path, "rb").read()
+                st = os.stat(path)
+            except OSError:
+                continue
+            if a != b or not a or st.st_size == len(a):
+                continue                      # not stable, empty, or stat() agrees: not the situation to be exercised
+            for p in (7, 16384):
+                argv = ["torrent", "create", "--input", path, "--output", "-", "--piece-length", str(p), "--md5", "--name", "n"] + ALLOW
+                rc, out, err = ctx.imdl(argv, cwd=tmp, timeout=60)
+                ctx.cov["evaluations"] += 1
+                ctx.count("e2e_stat_size_differs_from_bytes_read")
+                ctx.distinct(("statsize", path, p))
+                case = {"kind": "stat-size", "argv": ["imdl"] + argv, "stat_size": st.st_size, "bytes_read": len(a), "rc": rc,
+                        "stderr": err.decode("utf-8", "replace")[-300:],
+                        "reproduce": "imdl %s | strings | head   # length must be %d, not %d" % (" ".join(argv), len(a), st.st_size)}
+                if rc != 0:
+                    ctx.violation("oracle-failure", "create failed (rc %d) on %s" % (rc, path), case); continue
+                try:
+                    _, pieces, listed, pl, _ = observe(out)
+                except Exception as e:
+                    ctx.violation("oracle-failure", "create on %s wrote an unreadable torrent: %r" % (path, e), case); continue
+                want_pieces = b"".join(hashlib.sha1(a[i:i + p]).digest() for i in range(0, len(a), p))
+                want = [(None, len(a), hashlib.md5(a).hexdigest())]
+                if listed != want or pieces != want_pieces:
+                    ctx.violation("oracle-failure",
+                                  "create on %s (stat size %d, %d bytes when read): listed %r, expected %r; pieces %s"
+                                  % (path, st.st_size, len(a), listed, want, "match" if pieces == want_pieces else "differ"), case)
+    finally:
+        shutil.rmtree(tmp, ignore_errors=True)
+
+
 def observe(torrent):
     """the observables C01 names, read with the independent strict decoder:
     -> ('ok', pieces, [(path or None, length, md5)], piece_length, info_span)"""
@@ -498,8 +558,8 @@ def shell_repro(case):
     for q, sz, cs in case["files"]:
         target = q if case["shape"] != "stdin" else "stdin.bin"
         base = "tree/" if case["shape"] == "dir" else ""
-        mk.append("python3 -c \"import random,os,sys;p=sys.argv[1];os.makedirs(os.path.dirname(p) or '.',exist_ok=True);"
-                  "open(p,'wb').write(random.Random(%d).randbytes(%d))\" '%s%s'" % (cs, sz, base, target))
+        mk.append("python3 -c \"import os,sys;%s;p=sys.argv[1];os.makedirs(os.path.dirname(p) or '.',exist_ok=True);"
+                  "open(p,'wb').write(b)\" '%s%s'" % (CONTENT_PY % (cs, sz, cs), base, target))
     if case["shape"] == "dir":
         mk.insert(0, "mkdir -p tree")
         cmd = "imdl " + " ".join(create_args(case, "tree"))
@@ -617,6 +677,12 @@ def run_e2e(ctx, n):
         {"shape": "dir", "p": 32 << 20, "md5": True, "files": [("a", (9 << 20) + 1, 13), ("b", 9 << 20, 14), ("c", 1024, 15)], "out": "-"},
         {"shape": "file", "p": 1 << 24, "md5": False, "files": [("edge", (1 << 24) + 1, 16)], "out": "-"},
         {"shape": "stdin", "p": 64 << 20, "md5": False, "files": [("s", (17 << 20) + 3, 17)], "out": "-", "bursts": [1 << 20] * 17 + [3]},
+        # piece strings with a line feed early and a long line-feed-free tail (a torrent written to standard output with less
+        # than write_all is cut there: seeded change C01-8), with and without the progress bar that --terminal switches on
+        {"shape": "dir", "p": 1, "md5": True, "files": [("a", 64, 18), ("b", 300, 16)], "out": "-"},
+        {"shape": "dir", "p": 1, "md5": True, "files": [("a", 64, 20), ("b", 300, 19)], "out": "-", "globals": ["--terminal"]},
+        {"shape": "file", "p": 16384, "md5": True, "files": [("zeros", 16384 * 120 + 5, 32)], "out": "-", "globals": ["-t"]},
+        {"shape": "stdin", "p": 2, "md5": True, "files": [("s", 900, 35)], "out": "-", "bursts": [450, 450], "globals": ["--terminal"]},
     ]
     cases = [dict(c, kind="e2e", id=-1 - i) for i, c in enumerate(fixed)] + cases
     tmp = tempfile.mkdtemp(prefix="c01-")
@@ -783,6 +849,7 @@ def run(ctx):
     ctx.count("sweep_cases", len(sw))
     run_hook_cases(ctx, sw, "sweep")
     run_e2e(ctx, ctx.n(800, 8000))
+    run_size_disagrees(ctx)
     run_malformed_e2e(ctx)
     if big is not None:
         res = big.result()
